@@ -130,6 +130,14 @@ def search(budget):
                         fail("main", "exit %r, printed %r; split() gives %r" % (rc, got[:4], exp[:4]), argv=argv)
                     if time.time() - t0 > budget:
                         return n
+        # a --printf template with non-ASCII text and escapes
+        n += 1
+        tpl = "[{id}] {start} \u2192 {end}\\td\u00e9tection"
+        regs = list(split(data, sr=sr, sw=2, ch=1, min_dur=0.2, max_dur=5, max_silence=0.3, analysis_window=0.01, energy_threshold=50))
+        exp = ["[%d] %s \u2192 %s\td\u00e9tection" % (i + 1, ref_fmt(r.start, "%S"), ref_fmt(r.end, "%S")) for i, r in enumerate(regs)]
+        rc, out, err = run_main([wavp, "--printf", tpl])
+        if rc != 0 or out.rstrip("\n").split("\n") != exp:
+            fail("main", "--printf %r: printed %r, expected %r" % (tpl, out[:80], exp[:2]))
         # -q prints nothing; -j without -O exits 1
         n += 1
         rc, out, err = run_main([wavp, "-q", "-n", "0.03"])
